@@ -280,6 +280,7 @@ func (in *Interp) resetPath() {
 	in.tseq = 0
 	in.quiesce = nil
 	in.holdTimers = false
+	in.simulTimers = false
 	in.guard = nil
 	in.facts = newFacts()
 }
